@@ -129,6 +129,45 @@ RenameOp(t, from, to) == IF Has(t, to) THEN F("DuplicateFieldName")
                          ELSE IF ~Has(t, from) THEN F("FieldNotExist")
                          ELSE R(T([j \in 1..Len(t.cols) |-> IF t.cols[j] = from THEN to ELSE t.cols[j]], t.rows), 1)
 
+\* INSERT INTO t SELECT id + 10, v FROM u : the rows of u, in order, shifted ids (first two columns of u)
+InsertSelOp(t, u) ==
+  IF u.absent THEN F("FileNotExist")
+  ELSE IF (~Has(u, "id") \/ ~Has(u, "v")) /\ u.rows # <<>> THEN F("FieldNotExist")   \* the select list is only evaluated per row
+  ELSE IF Len(t.cols) # 2 THEN F("InsertSelectFieldLength")
+  ELSE IF u.rows = <<>> THEN R(t, 0)
+  ELSE R(T(t.cols, t.rows \o [i \in 1..Len(u.rows) |-> <<u.rows[i][ColIdx(u, "id")] + 10, u.rows[i][ColIdx(u, "v")]>>]), Len(u.rows))
+
+\* INSERT INTO t (id) VALUES (k) : the other columns are NULL
+InsertColsOp(t, k) ==
+  IF ~Has(t, "id") THEN F("FieldNotExist")
+  ELSE R(T(t.cols, Append(t.rows, [j \in 1..Len(t.cols) |-> IF j = ColIdx(t, "id") THEN k ELSE -1])), 1)
+
+\* UPDATE t SET t.v = u.v FROM t JOIN u ON t.id = u.id : a row of t matched by exactly one row of u takes its v;
+\* a row matched by several rows of u would be assigned twice: ambiguous update (error, nothing changes)
+UpdateJoinOp(t, u) ==
+  IF u.absent THEN F("FileNotExist")
+  ELSE IF ~Has(t, "id") \/ ~Has(u, "id") THEN (IF t.rows = <<>> \/ u.rows = <<>> THEN R(t, 0) ELSE F("FieldNotExist"))
+  ELSE LET ti == ColIdx(t, "id")  ui == ColIdx(u, "id")
+           part(i) == {j \in 1..Len(u.rows) : u.rows[j][ui] = t.rows[i][ti] /\ t.rows[i][ti] # -1}
+           matched == {i \in 1..Len(t.rows) : part(i) # {}} IN
+       IF matched = {} THEN R(t, 0)
+       ELSE IF ~Has(t, "v") \/ ~Has(u, "v") THEN F("FieldNotExist")
+       ELSE LET tv == ColIdx(t, "v")  uv == ColIdx(u, "v") IN
+            IF \E i \in matched : Cardinality(part(i)) > 1 THEN F("UpdateValueAmbiguous")
+            ELSE R(T(t.cols, [i \in 1..Len(t.rows) |-> IF i \in matched THEN [t.rows[i] EXCEPT ![tv] = u.rows[CHOOSE j \in part(i) : TRUE][uv]] ELSE t.rows[i]]),
+                   Cardinality(matched))
+
+\* ALTER TABLE t ADD x DEFAULT id FIRST : a new first column holding the id of its row
+AddFirstOp(t) == IF Has(t, "x") THEN F("DuplicateFieldName")
+                 ELSE IF ~Has(t, "id") THEN (IF t.rows = <<>> THEN R(T(<<"x">> \o t.cols, <<>>), 1) ELSE F("FieldNotExist"))
+                 ELSE R(T(<<"x">> \o t.cols, [i \in 1..Len(t.rows) |-> <<t.rows[i][ColIdx(t, "id")]>> \o t.rows[i]]), 1)
+\* ALTER TABLE t ADD y DEFAULT CASE WHEN id = k THEN 1 % 0 ELSE 7 END : fails at the row with id = k
+AddFailOp(t, k) == IF Has(t, "y") THEN F("DuplicateFieldName")
+                   ELSE IF t.rows = <<>> THEN R(T(Append(t.cols, "y"), <<>>), 1)
+                   ELSE IF ~Has(t, "id") THEN F("FieldNotExist")
+                   ELSE IF \E i \in 1..Len(t.rows) : t.rows[i][ColIdx(t, "id")] = k THEN F("IntegerDividedByZero")
+                   ELSE R(T(Append(t.cols, "y"), [i \in 1..Len(t.rows) |-> Append(t.rows[i], 7)]), 1)
+
 \* the frame condition of C05: a successful statement changes nothing but what it names
 SameShapeUnlessAlter(t, t2) == t2.cols = t.cols
 
@@ -157,27 +196,57 @@ Select(t) ==
             /\ UNCHANGED ended
   /\ UNCHANGED <<disk, dirty, created, temp, envn>>
 
+\* SELECT * FROM (SELECT * FROM t) s  /  SELECT COUNT(*), SUM(v) FROM t : the same table as the transaction sees it
+SelectSub(t) == Select(t)
+RECURSIVE SumCol(_, _)
+SumCol(rows, i) == IF rows = <<>> THEN 0 ELSE (IF Head(rows)[i] = -1 THEN 0 ELSE Head(rows)[i]) + SumCol(Tail(rows), i)
+SelectAgg(t) ==
+  /\ IF t # TempT /\ Seen(t).absent
+       THEN out' = Err("FileNotExist") /\ ended' = Script /\ UNCHANGED cache
+       ELSE IF ~Has(Seen(t), "v") /\ Seen(t).rows # <<>>
+       THEN /\ out' = Err("FieldNotExist") /\ ended' = Script
+            /\ cache' = IF t # TempT /\ ~cache[t].loaded THEN [cache EXCEPT ![t] = Loaded(disk[t], FALSE)] ELSE cache
+       ELSE /\ out' = Val(<<ToString(Len(Seen(t).rows)),
+                            IF Seen(t).rows = <<>> \/ \A i \in 1..Len(Seen(t).rows) : Seen(t).rows[i][ColIdx(Seen(t), "v")] = -1 THEN "NULL"
+                            ELSE ToString(SumCol(Seen(t).rows, ColIdx(Seen(t), "v")))>>)
+            /\ cache' = IF t # TempT /\ ~cache[t].loaded THEN [cache EXCEPT ![t] = Loaded(disk[t], FALSE)] ELSE cache
+            /\ UNCHANGED ended
+  /\ UNCHANGED <<disk, dirty, created, temp, envn>>
+
 \* the table a data-changing statement works on: a file loaded by a plain SELECT is loaded again, under
 \* an exclusive lock (the documented exception of C20)
 ForUpdate(t) == IF t = TempT THEN temp.cur ELSE IF cache[t].loaded /\ cache[t].upd THEN cache[t].tbl ELSE disk[t]
 
-\* generic data-changing statement with result r = Op(ForUpdate(t), ...); alter: marks dirty even with count 0
-Dml(t, r, alter) ==
+\* generic data-changing statement with result r = Op(ForUpdate(t), ...); alter: marks dirty even with count 0;
+\* ro / fu: other file tables the statement reads (loaded read-only if not yet loaded) or names in the FROM
+\* clause of an UPDATE (loaded - or re-loaded - for update and held, although not changed)
+CacheAfter(t, newT, ro, fu) ==
+  [f \in AllFiles |->
+     IF f = t THEN newT
+     ELSE IF f \in fu THEN Loaded(ForUpdate(f), TRUE)
+     ELSE IF f \in ro /\ ~cache[f].loaded THEN Loaded(disk[f], FALSE)
+     ELSE cache[f]]
+DmlR(t, r, alter, ro, fu) ==
   IF t # TempT /\ ForUpdate(t).absent
     THEN /\ out' = Err("FileNotExist")
          /\ ended' = Script
          /\ UNCHANGED <<disk, cache, dirty, created, temp, envn>>
-  ELSE IF r.err # ""
-    THEN \* C08: nothing changes - except that the file is now loaded (and locked) for update
-         /\ out' = Err(r.err)
+  ELSE IF r.err = "FileNotExist"
+    THEN /\ out' = Err("FileNotExist") /\ ended' = Script
          /\ cache' = IF t = TempT THEN cache ELSE [cache EXCEPT ![t] = Loaded(ForUpdate(t), TRUE)]
+         /\ UNCHANGED <<disk, dirty, created, temp, envn>>
+  ELSE IF r.err # ""
+    THEN \* C08: nothing changes - except that the tables are now loaded (the target held for update)
+         /\ out' = Err(r.err)
+         /\ cache' = IF t = TempT THEN CacheAfter("", NotLoaded, ro, fu) ELSE CacheAfter(t, Loaded(ForUpdate(t), TRUE), ro, fu)
          /\ ended' = Script
          /\ UNCHANGED <<disk, dirty, created, temp, envn>>
   ELSE /\ out' = Val(<<ToString(r.n)>>)
-       /\ IF t = TempT THEN temp' = [temp EXCEPT !.cur = r.tbl] /\ UNCHANGED cache
-                       ELSE cache' = [cache EXCEPT ![t] = Loaded(r.tbl, TRUE)] /\ UNCHANGED temp
+       /\ IF t = TempT THEN temp' = [temp EXCEPT !.cur = r.tbl] /\ cache' = CacheAfter("", NotLoaded, ro, fu)
+                       ELSE cache' = CacheAfter(t, Loaded(r.tbl, TRUE), ro, fu) /\ UNCHANGED temp
        /\ dirty' = IF r.n > 0 \/ alter THEN dirty \cup {t} ELSE dirty
        /\ UNCHANGED <<disk, created, ended, envn>>
+Dml(t, r, alter) == DmlR(t, r, alter, {}, {})
 
 RowsOk(t, n) == Len(ForUpdate(t).rows) + n <= MaxRows
 
@@ -190,6 +259,13 @@ Delete(t, k)     == Dml(t, DeleteOp(ForUpdate(t), k), FALSE)
 Replace(t, k, x) == RowsOk(t, 1) /\ Dml(t, ReplaceOp(ForUpdate(t), <<<<k, x>>>>), FALSE)
 \* three given rows: the last key first, so that "given order" differs from key order
 Replace3(t, k, x) == RowsOk(t, 3) /\ Dml(t, ReplaceOp(ForUpdate(t), <<<<k + 2, x>>, <<k, x + 1>>, <<k + 1, x>>>>), FALSE)
+InsertSel(t, u)  == RowsOk(t, Len(Seen(u).rows)) /\ DmlR(t, InsertSelOp(ForUpdate(t), IF u = t THEN ForUpdate(t) ELSE Seen(u)), FALSE, {u} \ {t, TempT}, {})
+InsertCols(t, k) == RowsOk(t, 1) /\ Dml(t, InsertColsOp(ForUpdate(t), k), FALSE)
+\* INSERT INTO t VALUES (k, 1), (k + 1) : the second row is too short; nothing is inserted
+InsertBad2(t, k) == Dml(t, InsertOp(ForUpdate(t), <<<<k, 1>>, <<k + 1>>>>), FALSE)
+UpdateJoin(t, u) == u # t /\ DmlR(t, UpdateJoinOp(ForUpdate(t), IF u = TempT THEN temp.cur ELSE ForUpdate(u)), FALSE, {}, {u} \ {TempT})
+AddFirst(t)      == Dml(t, AddFirstOp(ForUpdate(t)), TRUE)
+AddFail(t, k)    == Dml(t, AddFailOp(ForUpdate(t), k), TRUE)
 AddCol(t)        == Dml(t, AddColOp(ForUpdate(t)), TRUE)
 DropCol(t)       == Dml(t, DropColOp(ForUpdate(t)), TRUE)
 Rename(t, a, b)  == Dml(t, RenameOp(ForUpdate(t), a, b), TRUE)
@@ -250,13 +326,22 @@ Do(a) ==
        [] a.act = "dropcol"  -> DropCol(a.t)
        [] a.act = "renamevu" -> Rename(a.t, "v", "u")
        [] a.act = "renameuv" -> Rename(a.t, "u", "v")
+       [] a.act = "selectsub" -> SelectSub(a.t)
+       [] a.act = "selectagg" -> SelectAgg(a.t)
+       [] a.act = "insertsel" -> InsertSel(a.t, a.u)
+       [] a.act = "insertcols" -> InsertCols(a.t, a.k)
+       [] a.act = "insertbad2" -> InsertBad2(a.t, a.k)
+       [] a.act = "updatejoin" -> UpdateJoin(a.t, a.u)
+       [] a.act = "addfirst" -> AddFirst(a.t)
+       [] a.act = "addfail"  -> AddFail(a.t, a.k)
        [] a.act = "create"   -> Create
        [] a.act = "commit"   -> Commit
        [] a.act = "rollback" -> Rollback
        [] a.act = "env"      -> EnvCommit(a.t)
        [] a.act = "disk"     -> Disk(a.t)
 
-A(act, t, k, x) == [act |-> act, t |-> t, k |-> k, x |-> x]
+A(act, t, k, x) == [act |-> act, t |-> t, k |-> k, x |-> x, u |-> ""]
+A2(act, t, u) == [act |-> act, t |-> t, k |-> 0, x |-> 0, u |-> u]
 
 Actions ==
   {A(x, t, 0, 0) : x \in {"select", "insertbad", "addcol", "dropcol", "renamevu", "renameuv"}, t \in Tables}
@@ -265,6 +350,9 @@ Actions ==
   \cup {A(x, t, k, 0) : x \in {"update", "delete"}, t \in Tables, k \in Keys \cup {0}}
   \cup {A("updatefail", t, k, 0) : t \in Tables, k \in Keys}
   \cup {A(r, t, k, x) : r \in {"replace", "replace3"}, t \in Tables, k \in Keys, x \in Vals}
+  \cup {A(x, t, 0, 0) : x \in {"selectsub", "selectagg", "addfirst"}, t \in Tables}
+  \cup {A(x, t, k, 0) : x \in {"insertcols", "insertbad2", "addfail"}, t \in Tables, k \in Keys}
+  \cup {A2(x, t, u) : x \in {"insertsel", "updatejoin"}, t \in Tables, u \in Tables \ {NewFile}}
   \cup {A(x, "", 0, 0) : x \in {"create", "commit", "rollback"}}
   \cup {A("env", f, 0, 0) : f \in Files}
   \cup {A("disk", f, 0, 0) : f \in AllFiles}
